@@ -105,6 +105,13 @@ impl BlockCache {
 		}
 	}
 
+	/// Drops every cached entry. Entries are keyed by (table id, offset) /
+	/// (vlog file id, offset); anything that rewinds those identifiers (a
+	/// restore from a checkpoint) must clear the cache.
+	pub(crate) fn clear(&self) {
+		self.data.clear();
+	}
+
 	/// Inserts a data block into the cache.
 	pub(crate) fn insert_data_block(&self, table_id: u64, offset: u64, block: Arc<Block>) {
 		self.data.insert((KIND_DATA, table_id, offset).into(), Item::Data(block));
